@@ -152,8 +152,29 @@ def sub_corners(g, lo, hi):
     return a, b
 
 
+@st.composite
+def geom_int(draw, ndim=(1, 4), kmax=4, fractional=True, names=True, maxcells=400):
+    """integer-typed corners; with fractional=True the cell size is 1/2 or 1/4 of an integer (n multiplied)"""
+    nd = draw(st.integers(*ndim)) if isinstance(ndim, tuple) else ndim
+    n, p1, p2 = [], [], []
+    for _ in range(nd):
+        c = draw(st.integers(1, 3))
+        k = draw(st.integers(1, kmax))
+        off = draw(st.integers(-6, 6))
+        mult = draw(st.sampled_from([1, 2, 4, 5])) if fractional else 1
+        n.append(k * mult)
+        p1.append(off * c)
+        p2.append(off * c + k * c)
+    while math.prod(n) > maxcells:
+        j = n.index(max(n))
+        n[j] = max(1, n[j] // 2)
+    return {"p1": p1, "p2": p2, "n": n, "exp": 0, "dims": draw(dims_strategy(nd)) if names else None,
+            "units": None, "tol": None, "int_subs": draw(st.booleans())}
+
+
 def build_mesh(g, bc="", subs=None, region=None):
-    """subs: list of [name, lo_idx, hi_idx] (index boxes)."""
+    """subs: list of [name, lo_idx, hi_idx] (index boxes).  With g['int_subs'] subregion corners that are
+    whole numbers are passed as Python ints (integer-typed subregions)."""
     import discretisedfield as df
 
     region = region if region is not None else build_region(g)
@@ -162,6 +183,8 @@ def build_mesh(g, bc="", subs=None, region=None):
         sr = {}
         for name, lo, hi in subs:
             a, b = sub_corners(g, lo, hi)
+            if g.get("int_subs") and all(float(x).is_integer() for x in a + b):
+                a, b = [int(x) for x in a], [int(x) for x in b]
             sr[name] = df.Region(p1=a, p2=b)
     return df.Mesh(region=region, n=tuple(int(i) for i in g["n"]), bc=bc, subregions=sr)
 
